@@ -11,6 +11,15 @@ NOTE = ("Trusted base: the frozen effect / identity tables in kdverif (one reaso
         "the value-level behaviour of the property (see DESIGN.md section 4, 'N' lists).")
 
 CLAIMS = {
+    "C10": ("def-use threading of the partner permutation, polynomial normal forms of the mixes, taint-typed per-sample indexing",
+            "Decides in KDMixCollator: every shuffle passes and rebinds one permutation variable and shuffle() reuses a given "
+            "permutation (same partner for image and label); every in-place mix is own*L + partner*(1-L) with L the "
+            "variable reported as ctx['lambda'] (no re-definition in between) and partner a shuffle of the same item; every "
+            "paste uses identical regions on both sides with the box unpacked from get_random_bbox in slice order, whose "
+            "area-corrected lambda replaces the drawn one; inside the per-sample loop every tensor derived from rng draws "
+            "is indexed by the loop variable; set_item writes back exactly the fetched items, binary labels are squeezed "
+            "back iff unsqueezed; get_random_bbox clamps row/column edges to [0,h]/[0,w], stacks them (top,left,bot,right) "
+            "and returns 1 - (bot-top)(right-left)/(hw). Pixel-fraction identity as tensor values is not decided."),
     "C18": ("guard-flag typestate on the CFG of KDCollatorBase._call_impl, def-use identity of the context at every collate call site",
             "Decides: every default_collate(batch) in _call_impl is reached only under a known-False 'collated' flag that is "
             "set in the same loop step on every path, one flag for all sites (collation at most once for any order of "
